@@ -122,6 +122,11 @@ func (n *NameTrie[V]) DeleteIf(pred func(V) bool) {
 		// Root node cannot be deleted.
 		return
 	}
+	if cur, ok := n.par.chd[n.key]; !ok || cur != n {
+		// This node has been detached before (stale reference). The parent's
+		// entry for the key, if any, belongs to a newer node and must be kept.
+		return
+	}
 	n.chd = nil
 	delete(n.par.chd, n.key)
 	n.par.DeleteIf(pred)
